@@ -9,7 +9,10 @@
         [timeout] changes the timeout; nothing else changes anything (in particular not a child
         process that changes its own directory);
       - the process of the act phase sees the act set, every other process the non-act set; every
-        process sees the current directory and the timeout in force;
+        process sees the current directory and the timeout in force - including the program an
+        [env NAME = -stdout-from PROGRAM] instruction runs to compute its value (for THAT process
+        only the directory and the timeout are specified, not its environment: the manual gives
+        it the environment of the set being changed);
       - what is in force at a point of the execution is the result of the instructions executed
         before that point, in execution order (setup, act, before-assert, assert, cleanup; an
         instruction that fails ends the phases before cleanup). *)
@@ -109,6 +112,13 @@ Definition sstep (dirs : list path) (o : op) (s : sstate) : option sstate :=
       Some (SState (if has_act t then smodify md (ss_act s) else ss_act s)
                    (if has_non_act t then smodify md (ss_nonact s) else ss_nonact s)
                    (ss_timeout s) (ss_cwd s))
+  | OEnvProg t n v =>
+      (* the value is what the program printed; which environment that program is given is not
+         specified here (documented: that of the set being changed) *)
+      let md := MSet n v in
+      Some (SState (if has_act t then smodify md (ss_act s) else ss_act s)
+                   (if has_non_act t then smodify md (ss_nonact s) else ss_nonact s)
+                   (ss_timeout s) (ss_cwd s))
   | OCd b suffix =>
       match walk (base_dir (ss_cwd s) b) suffix with
       | Some d => if existsb (path_eqb d) dirs
@@ -181,7 +191,8 @@ Definition spec_view (pt : point) (s : sstate) : sobs :=
 
 (** an observed (or model) observation agrees with the specification's *)
 Definition obs_agrees (so : sobs) (o : obs) : Prop :=
-  (forall n, get (o_env o) n = so_env so n) /\ o_cwd o = so_cwd so /\ o_timeout o = so_timeout so.
+  (o_role o = RProcess -> forall n, get (o_env o) n = so_env so n) /\
+  o_cwd o = so_cwd so /\ o_timeout o = so_timeout so.
 
 (** two histories have the same instructions before [pt] (in execution order) *)
 Definition agree_before (pt : point) (h h' : history) : Prop :=
@@ -198,7 +209,8 @@ Definition agree_before (pt : point) (h h' : history) : Prop :=
   end.
 
 Definition obs_equiv (o o' : obs) : Prop :=
-  (forall n, get (o_env o) n = get (o_env o') n) /\ o_cwd o = o_cwd o' /\ o_timeout o = o_timeout o'.
+  (o_role o = RProcess -> o_role o' = RProcess -> forall n, get (o_env o) n = get (o_env o') n) /\
+  o_cwd o = o_cwd o' /\ o_timeout o = o_timeout o'.
 
 (** execution order of the points: setup instructions, the act process, before-assert, assert,
     cleanup instructions *)
@@ -217,7 +229,7 @@ Definition timeout_eqb : timeout -> timeout -> bool := option_eqb N.eqb.
     environment, those the history mentions, those observed *)
 Definition op_names (o : op) : list name :=
   match o with
-  | OEnv _ (MSet n _) | OEnv _ (MUnset n) => [n]
+  | OEnv _ (MSet n _) | OEnv _ (MUnset n) | OEnvProg _ n _ => [n]
   | _ => []
   end.
 
@@ -225,7 +237,10 @@ Definition history_names (h : history) : list name :=
   flat_map op_names (h_setup h ++ h_before_assert h ++ h_assert h ++ h_cleanup h).
 
 Definition obs_agreesb (names : list name) (so : sobs) (o : obs) : bool :=
-  forallb (fun n => option_eqb text_eqb (get (o_env o) n) (so_env so n)) (names ++ map fst (o_env o))
+  match o_role o with
+  | RProcess => forallb (fun n => option_eqb text_eqb (get (o_env o) n) (so_env so n)) (names ++ map fst (o_env o))
+  | RValue _ => true     (* the environment of a value-computing program is not judged *)
+  end
   && path_eqb (o_cwd o) (so_cwd so) && timeout_eqb (o_timeout o) (so_timeout so).
 
 (** The property predicate on OBSERVED behaviour: every process that was observed saw exactly
@@ -256,8 +271,16 @@ Definition env_equivb (e1 e2 : env) : bool :=
   forallb (fun kv => option_eqb text_eqb (get e2 (fst kv)) (get e1 (fst kv))) e1 &&
   forallb (fun kv => option_eqb text_eqb (get e1 (fst kv)) (get e2 (fst kv))) e2.
 
+Definition role_eqb (a b : role) : bool :=
+  match a, b with
+  | RProcess, RProcess => true
+  | RValue j, RValue k => Nat.eqb j k
+  | _, _ => false
+  end.
+
 Definition obs_eqb (a b : obs) : bool :=
-  env_equivb (o_env a) (o_env b) && path_eqb (o_cwd a) (o_cwd b) && timeout_eqb (o_timeout a) (o_timeout b).
+  env_equivb (o_env a) (o_env b) && path_eqb (o_cwd a) (o_cwd b) && timeout_eqb (o_timeout a) (o_timeout b) &&
+  role_eqb (o_role a) (o_role b).
 
 (** did some instruction fail (the phases before cleanup halted, or cleanup did)? *)
 Definition some_instruction_fails (c : config) (h : history) : bool :=
